@@ -75,6 +75,7 @@ class RuleTable:
         self.undecided = []  # (mod, site, reason)
         self.sites = 0
         self._depth = 0
+        self._in_loop = 0
         for m in repo.mods.values():
             self._run_body(m, m.tree.body, {})
 
@@ -83,9 +84,18 @@ class RuleTable:
         for st in body:
             if isinstance(st, ast.Expr) and isinstance(st.value, ast.Call):
                 self._call(m, st.value, env)
-            elif isinstance(st, ast.Assign) and self._depth > 0 and len(st.targets) == 1 and isinstance(st.targets[0], ast.Name):
-                # a local of a registration helper: later statements see the new binding
+            elif isinstance(st, ast.Assign) and (self._depth > 0 or self._in_loop > 0) and len(st.targets) == 1 and isinstance(st.targets[0], ast.Name):
+                # a local of a registration helper / a name rebound in each iteration of a module-level loop
                 env[st.targets[0].id] = subst(st.value, env)
+            elif isinstance(st, ast.Assign) and (self._depth > 0 or self._in_loop > 0) and len(st.targets) == 1 and isinstance(st.targets[0], (ast.Tuple, ast.List)) and all(isinstance(e, ast.Name) for e in st.targets[0].elts):
+                v = subst(st.value, env)
+                if isinstance(v, (ast.Tuple, ast.List)) and len(v.elts) == len(st.targets[0].elts):
+                    for te, ve in zip(st.targets[0].elts, v.elts):
+                        env[te.id] = ve
+                elif not isinstance(v, _Foreign):
+                    # a, b = factory(...): component i of the call's result
+                    for i, te in enumerate(st.targets[0].elts):
+                        env[te.id] = ast.Subscript(value=v, slice=ast.Constant(value=i), ctx=ast.Load())
             elif isinstance(st, ast.If):
                 from .model import static_module_cond
 
@@ -106,12 +116,17 @@ class RuleTable:
                     if _contains_reg_call(st):
                         self.undecided.append((m, st, "loop over non-literal iterable"))
                     continue
-                if not isinstance(st.target, ast.Name):
-                    continue
                 for e in elts:
                     env2 = dict(env)
-                    env2[st.target.id] = e
-                    self._run_body(m, st.body, env2)
+                    if not _bind_loop_target(st.target, e, env2):
+                        if _contains_reg_call(st):
+                            self.undecided.append((m, st, "loop target cannot be bound to the literal element"))
+                        break
+                    self._in_loop += 1
+                    try:
+                        self._run_body(m, st.body, env2)
+                    finally:
+                        self._in_loop -= 1
             elif isinstance(st, ast.Try):
                 self._run_body(m, st.body, env)
             elif isinstance(st, ast.With):
@@ -165,8 +180,28 @@ class RuleTable:
             if a is None or b is None:
                 return None
             return a + b
+        if isinstance(it, ast.Call) and isinstance(it.func, ast.Attribute) and it.func.attr in ("items", "keys", "values") and not it.args and not it.keywords:
+            d = it.func.value
+            dm = m
+            if isinstance(d, (ast.Name, ast.Attribute)):
+                r = self.repo.resolve_expr(m, d)
+                if r is not None and r.kind == "repo" and r.okind == "assign":
+                    d, dm = r.node, r.mod
+            if isinstance(d, ast.Dict) and all(k is not None for k in d.keys):
+                if it.func.attr == "items":
+                    out = [ast.Tuple(elts=[k, v], ctx=ast.Load()) for k, v in zip(d.keys, d.values)]
+                elif it.func.attr == "keys":
+                    out = list(d.keys)
+                else:
+                    out = list(d.values)
+                return [_Foreign(dm, e) for e in out] if dm is not m else out
+            return None
+        if isinstance(it, ast.Dict) and all(k is not None for k in it.keys):
+            return list(it.keys)
         if isinstance(it, (ast.Name, ast.Attribute)):
             r = self.repo.resolve_expr(m, it)
+            if r is not None and r.kind == "repo" and r.okind == "assign" and isinstance(r.node, ast.Dict) and all(k is not None for k in r.node.keys):
+                return [_Foreign(r.mod, e) for e in r.node.keys] if r.mod is not m else list(r.node.keys)
             if r is not None and r.kind == "repo" and r.okind == "assign" and isinstance(r.node, (ast.List, ast.Tuple)):
                 if r.mod is not m:
                     # elements must be resolved in their defining module: wrap as (mod, expr)
@@ -256,12 +291,13 @@ class RuleTable:
             return
         if fref is not None and fref.qual == "builtins.setattr" and len(c.args) == 3:
             cls = self._resolve(m, c.args[0], env)
-            name = subst(c.args[1], env)
+            name = _const_fold_str(subst(c.args[1], env))
             if cls is not None and isinstance(name, ast.Constant) and isinstance(name.value, str):
                 self.sites += 1
                 tgt = self._resolve(m, c.args[2], env)
-                self.setattrs.append((cls.qual, name.value, tgt, m, c, subst(c.args[2], env)))
-                if tgt is None:
+                vexpr = subst(c.args[2], env)
+                self.setattrs.append((cls.qual, name.value, tgt, m, c, vexpr))
+                if tgt is None and not isinstance(vexpr, (ast.Call, ast.Subscript, ast.Lambda)):
                     self.undecided.append((m, c, f"setattr target for {name.value} unresolved"))
 
     def _reg(self, m, c, env, mode, api):
@@ -354,6 +390,70 @@ class _Foreign(ast.AST):
 
     def __deepcopy__(self, memo):
         return self
+
+
+def _bind_loop_target(tgt, e, env):
+    """bind the target of a module-level `for` to one literal element (names, or a tuple of names against a
+    tuple/list literal element)"""
+    if isinstance(tgt, ast.Name):
+        env[tgt.id] = e
+        return True
+    if isinstance(tgt, (ast.Tuple, ast.List)):
+        mod_ = None
+        x = e
+        if isinstance(e, _Foreign):
+            mod_, x = e.mod, e.expr
+        if isinstance(x, (ast.Tuple, ast.List)) and len(x.elts) == len(tgt.elts):
+            for te, ve in zip(tgt.elts, x.elts):
+                if not _bind_loop_target(te, _Foreign(mod_, ve) if mod_ is not None else ve, env):
+                    return False
+            return True
+    return False
+
+
+def _const_fold_str(e):
+    """fold "__%s__" % "add", "__" + s + "__", f"__{s}__", "__{}__".format(s) over string constants"""
+    if isinstance(e, _Foreign):
+        e = e.expr
+    if isinstance(e, ast.Constant):
+        return e
+    try:
+        if isinstance(e, ast.BinOp) and isinstance(e.op, ast.Mod):
+            l, r = _const_fold_str(e.left), e.right
+            if isinstance(l, ast.Constant) and isinstance(l.value, str):
+                if isinstance(r, ast.Tuple):
+                    vals = [_const_fold_str(x) for x in r.elts]
+                    if all(isinstance(v, ast.Constant) for v in vals):
+                        return ast.Constant(value=l.value % tuple(v.value for v in vals))
+                else:
+                    r = _const_fold_str(r)
+                    if isinstance(r, ast.Constant):
+                        return ast.Constant(value=l.value % r.value)
+        if isinstance(e, ast.BinOp) and isinstance(e.op, ast.Add):
+            l, r = _const_fold_str(e.left), _const_fold_str(e.right)
+            if isinstance(l, ast.Constant) and isinstance(r, ast.Constant) and isinstance(l.value, str) and isinstance(r.value, str):
+                return ast.Constant(value=l.value + r.value)
+        if isinstance(e, ast.JoinedStr):
+            parts = []
+            for v in e.values:
+                if isinstance(v, ast.Constant):
+                    parts.append(str(v.value))
+                elif isinstance(v, ast.FormattedValue) and v.conversion == -1 and v.format_spec is None:
+                    c = _const_fold_str(v.value)
+                    if not isinstance(c, ast.Constant):
+                        return e
+                    parts.append(str(c.value))
+                else:
+                    return e
+            return ast.Constant(value="".join(parts))
+        if isinstance(e, ast.Call) and isinstance(e.func, ast.Attribute) and e.func.attr == "format" and not e.keywords:
+            base = _const_fold_str(e.func.value)
+            args = [_const_fold_str(a) for a in e.args]
+            if isinstance(base, ast.Constant) and isinstance(base.value, str) and all(isinstance(a, ast.Constant) for a in args):
+                return ast.Constant(value=base.value.format(*[a.value for a in args]))
+    except Exception:
+        return e
+    return e
 
 
 def _mentions_version(test):
